@@ -896,6 +896,15 @@ func (e *entFn) caseGuard(sw *ast.SwitchStmt, cc *ast.CaseClause) Formula {
 	}
 	var g Or
 	for _, x := range cc.List {
+		g = append(g, e.caseEq(sw, x))
+	}
+	return g
+}
+
+// caseEq: the formula "the switch selects the case expression x" (tag == x, or x itself in a tagless switch).
+func (e *entFn) caseEq(sw *ast.SwitchStmt, x ast.Expr) Formula {
+	var g Or
+	{
 		if sw.Tag == nil {
 			g = append(g, e.cond(e.k(), x, 0))
 		} else {
@@ -909,7 +918,7 @@ func (e *entFn) caseGuard(sw *ast.SwitchStmt, cc *ast.CaseClause) Formula {
 						// same encoding as cond uses for integer comparisons with constants
 						l := ks.norm(sw.Tag)
 						g = append(g, And{e.noteAtom(gtAtom(l, cv-1), objs), Not{e.noteAtom(gtAtom(l, cv), objs)}})
-						continue
+						return g
 					}
 				}
 			}
